@@ -243,12 +243,24 @@ def judge(ctx, exe, trace_path, what, rerun=True):
     nparts = max(1, min(vf.NCPU, n // 150))
     rej, total = vf.validate_cases(ctx, "SurroundTrace", "SurroundTrace.cfg", trace_path, what, nparts=nparts, heap="3g")
     bad_total = 0
+    shown = 0
     for p, ln, tr in rej:
         why = explain(ctx, p, what)
         if ln not in why:
             raise vf.Infra("%s: TLC rejected line %d of %s but the explain run does not" % (what, ln, p))
         bad_total += len(why)
-        for k in sorted(why)[:6]:
+        for k in sorted(why):
+            props, models = why[k]
+            # every rejected execution is counted; the first few are re-executed (R4) and reported verbatim,
+            # executions that break a property clause first
+            cls = "prop" if props else "model"
+            ctx.notes.setdefault("rejected_" + cls, 0)
+            ctx.notes["rejected_" + cls] += 1
+        order = sorted(why, key=lambda k: (0 if why[k][0] else 1, k))
+        for k in order[:2]:
+            if shown >= 10:
+                break
+            shown += 1
             props, models = why[k]
             ev = vf.file_line(p, k)
             cmd = json.loads(ev).get("cmd", "")
@@ -265,6 +277,9 @@ def judge(ctx, exe, trace_path, what, rerun=True):
                     raise vf.Infra("%s: rejection not repeatable for command %s (first %s / %s, then %s / %s)" % (
                         what, cmd[:300], props, models, a_props, a_models))
             report(ctx, props, models, cmd)
+    if bad_total:
+        vf.log("[G03] %d executions rejected (%d with a property clause broken, %d model only); %d reported" % (
+            bad_total, ctx.notes.get("rejected_prop", 0), ctx.notes.get("rejected_model", 0), shown))
     return total - bad_total
 
 
